@@ -11,6 +11,7 @@ import (
 	"fmt"
 	"math/rand/v2"
 	"reflect"
+	"strconv"
 	"strings"
 	"time"
 
@@ -61,6 +62,22 @@ func (t *PTM) MarshalText() ([]byte, error) { return []byte("ptm:" + t.V), nil }
 func (t *PTM) UnmarshalText(b []byte) error { t.V = string(b); return nil }
 
 // JM: value-receiver MarshalJSON, pointer-receiver UnmarshalJSON recording exactly what it was given.
+// PTS: string kind, text methods on the pointer receiver only (as a map key the values are not addressable)
+type PTS string
+
+func (t *PTS) MarshalText() ([]byte, error) { return []byte("pts:" + string(*t)), nil }
+func (t *PTS) UnmarshalText(b []byte) error { *t = PTS("u:" + string(b)); return nil }
+
+// PTI: integer kind, text methods on the pointer receiver only
+type PTI int
+
+func (t *PTI) MarshalText() ([]byte, error) { return []byte(fmt.Sprintf("pti:%d", int(*t))), nil }
+func (t *PTI) UnmarshalText(b []byte) error {
+	n, err := strconv.Atoi(strings.TrimPrefix(string(b), "pti:"))
+	*t = PTI(n)
+	return err
+}
+
 type JM struct{ V string }
 
 func (j JM) MarshalJSON() ([]byte, error) { return []byte(fmt.Sprintf(`{"jm":%q}`, j.V)), nil }
@@ -297,6 +314,8 @@ var keyTypes = [][2]reflect.Type{
 	same[NS](), same[NI](), same[TM](), same[TM](), same[TScr](), same[ITM](), same[*PTM](),
 	// text-method key types that have JSON methods as well
 	same[JTM](), same[time.Time](),
+	// non-pointer key types whose text methods sit on the pointer receiver: map keys are not addressable
+	same[PTM](), same[PTS](), same[PTI](),
 }
 
 var embeds = [][2]reflect.Type{same[E1](), same[E2](), same[*E1](), same[*E2](), same[Shadow](), same[E3](), same[E3]()}
